@@ -202,18 +202,25 @@ class Allowed:
 
     _pyvc_sym = True
 
-    def __init__(self, ne, hm):
+    def __init__(self, ne, hm, owner=None, unit=None):
         self.ne, self.hm = ne, hm
+        self.owner, self.unit = owner, unit  # owner: the resource whose own `_allowed_methods` this object is
 
     def __ior__(self, o):
+        if self.owner is not None and self.unit is not None:
+            # in-place union on a set that belongs to a resource: the router would rewrite that resource's Allow set
+            self.unit.check("C14.resolve.frame.resource_sets_untouched", False,
+                            "resolve() accumulates allowed methods in a set of its own: it never updates, in place, the set "
+                            "a resource returned (that is the resource's own _allowed_methods)")
         if isinstance(o, (set, frozenset)):
             assert not o
             return self
         return Allowed(Or(self.ne, o.ne), Or(self.hm, o.hm))
 
     def __ror__(self, o):
+        # set() | x : a NEW set with x's elements
         assert isinstance(o, (set, frozenset)) and not o
-        return self
+        return Allowed(self.ne, self.hm)
 
     def __bool__(self):
         from pyvc import ctx
@@ -261,7 +268,7 @@ def resolve_walk(u: U):
                 if u.choose(2, "candidate.matches") == 1:
                     G["matched"] = me
                     return (("MATCH", me), set())
-                a = Allowed(u.bool("cand.allowed.nonempty"), u.bool("cand.allowed.has_m"))
+                a = Allowed(u.bool("cand.allowed.nonempty"), u.bool("cand.allowed.has_m"), owner=me, unit=u)
                 u.assume(Implies(a.hm, a.ne))
                 G["seen_ne"] = Or(G["seen_ne"], a.ne)
                 G["seen_hm"] = Or(G["seen_hm"], a.hm)
